@@ -46,7 +46,10 @@ def make_env(
     }
     if limits:
         attrs.update(limits)
-    cls = type("VEnv", (Base,), attrs)
+    if suppress and not shorthand and not limits:
+        cls = Base  # the stock class (picklable by reference)
+    else:
+        cls = type("VEnv", (Base,), attrs)
     kw: dict[str, Any] = {}
     if undefined is not None:
         kw["undefined"] = undefined
